@@ -37,6 +37,7 @@ type c05Node struct {
 	deadRel  []RelayCancelFunc
 	everInt  map[string]bool // topics the node ever announced interest in
 	buffered map[*Subscription]int
+	scores   *vScores // application scores this node gives its peers (gossipsub with scoring), nil otherwise
 }
 
 func (x *c05Node) interest(t string) bool {
@@ -73,11 +74,23 @@ func TestVerifC05Interest(t *testing.T) {
 					p.PruneBackoff, p.UnsubscribeBackoff = 3*time.Second, time.Second
 					opts = append(opts, WithGossipSubParams(p))
 				}
+				// receiving side options that must not change what a node learns from announcements: peer scoring (a peer may be
+				// graylisted at the moment it announces), a subscription filter whose limit equals the largest possible hello
+				var scores *vScores
+				if router == "gossipsub" && c.Chance(0.4) {
+					scores = newVScores()
+					opts = append(opts, WithPeerScore(&PeerScoreParams{AppSpecificScore: scores.Get, AppSpecificWeight: 1, DecayInterval: time.Second, DecayToZero: 0.01},
+						&PeerScoreThresholds{GossipThreshold: -10, PublishThreshold: -20, GraylistThreshold: -30, AcceptPXThreshold: 10, OpportunisticGraftThreshold: 1}))
+				}
+				if c.Chance(0.4) {
+					opts = append(opts, WithSubscriptionFilter(WrapLimitSubscriptionFilter(NewAllowlistSubscriptionFilter(topics...), len(topics))))
+					c.Count("nodes_with_limit_filter", 1)
+				}
 				nd, err := n.NewNode(fmt.Sprintf("n%d", i), router, opts...)
 				if err != nil {
 					panic(err)
 				}
-				x := &c05Node{nd: nd, router: router, handles: map[string]*Topic{}, fanout: map[string]bool{}, subs: map[string][]*Subscription{},
+				x := &c05Node{nd: nd, router: router, scores: scores, handles: map[string]*Topic{}, fanout: map[string]bool{}, subs: map[string][]*Subscription{},
 					relays: map[string][]RelayCancelFunc{}, everInt: map[string]bool{}, buffered: map[*Subscription]int{}}
 				x.obs = n.NewPuppet(fmt.Sprintf("obs%d", i), "", FloodSubID)
 				nodes = append(nodes, x)
@@ -196,7 +209,17 @@ func TestVerifC05Interest(t *testing.T) {
 				if rsub != nil && c.Chance(0.15) {
 					opk = 15
 				}
+				if x.scores != nil && c.Chance(0.2) {
+					opk = 16
+				}
 				switch opk {
+				case 16:
+					// the node's opinion of one of the others changes: far below the graylist threshold, or back to neutral
+					y := nodes[c.Intn(N)]
+					v := []float64{-100, -100, 0}[c.Intn(3)]
+					x.scores.Set(y.nd.ID(), v)
+					note("score(%s gives %s %v)", x.nd.name, y.nd.name, v)
+					c.Count("score_changes", 1)
 				case 15:
 					if c.Chance(0.6) {
 						on := !rsubState[t]
